@@ -332,7 +332,7 @@ class VCtx:
         return a
 
     def spectrum(self, dims=("pos", "freq", "dir"), name="E", nonneg=True, uniform_dir=False,
-                 freq_positive=True, min_nf=1, min_nd=1, extra_coords=None, fixed=None, dir_coord=None):
+                 freq_positive=True, min_nf=1, min_nd=1, extra_coords=None, fixed=None, dir_coord=None, freq_coord=None):
         """DataArray in wavespectra convention with symbolic extents for every dim
         (fixed: {dim: n} makes an extent concrete = bounded in shape)"""
         ext_ = {}
@@ -345,7 +345,9 @@ class VCtx:
         Earr = self.array(name, tuple(ext_[d] for d in dims), nonneg=nonneg)
         coords = {}
         for d in dims:
-            if d == "freq":
+            if d == "freq" and freq_coord is not None:
+                c = freq_coord
+            elif d == "freq":
                 c = self.array("f", (ext_[d],), sorted_inc=True, positive=freq_positive)
             elif d == "dir":
                 if dir_coord is not None:
@@ -427,6 +429,10 @@ class VCtx:
         gn, wn = core.to_z3_bool(g.nan), core.to_z3_bool(w.nan)
         goal = z3.And(gn == wn, z3.Implies(z3.Not(wn), g.real() == w.real()))
         CTX.oblige(f"{self.contract.key}#{clause}", goal, kind, meta={"scenario": self.scenario})
+
+    def ensure_angle_eq(self, clause, got, want, kind="post"):
+        """equality of directions (degrees); symbolically plain equality"""
+        self.ensure_eq(clause, got, want, kind)
 
     def ensure_true(self, clause, pybool, detail=""):
         """structural (non-symbolic) postcondition, e.g. dims of the result"""
@@ -630,6 +636,8 @@ class CCtx:
         self.checked += 1
         g = float(real_np.asarray(got))
         w = float(want)
+        if w == float("inf") and g == g and abs(g) != float("inf"):
+            return  # the specification marks this case as undefined
         if (g != g) != (w != w):
             other = w if g != g else g
             # NaN against a value that is zero up to rounding: sqrt of a difference that is exactly 0 in
@@ -641,6 +649,21 @@ class CCtx:
             # spread that is exactly 0 in real arithmetic evaluates to ~1e-6 in float64)
             if abs(g - w) > self.tol * max(abs(w), abs(g)) + self.atol:
                 self.failures.append((clause, "value mismatch", g, w))
+
+    def ensure_angle_eq(self, clause, got, want, kind="post"):
+        """directions compared on the circle (359.99999 and 0.00001 are 2e-5 apart); float32 results"""
+        self.checked += 1
+        g = float(real_np.asarray(got))
+        w = float(want)
+        if w == float("inf"):
+            return  # undefined direction (zero resultant)
+        if (g != g) or (w != w):
+            if (g != g) != (w != w):
+                self.failures.append((clause, "nan mismatch", g, w))
+            return
+        d = abs(g - w) % 360.0
+        if min(d, 360.0 - d) > 1e-3:
+            self.failures.append((clause, "direction mismatch", g, w))
 
     def ensure_true(self, clause, pybool, detail=""):
         self.checked += 1
